@@ -1,0 +1,103 @@
+//go:build verif
+
+package collector
+
+import (
+	"bytes"
+	"crypto/tls"
+	"net"
+	"time"
+
+	"github.com/vmware/go-ipfix/pkg/entities"
+)
+
+// Verification hooks (build tag "verif"): they only export what is
+// unexported; no behaviour of the package changes.
+
+// VerifClock and VerifTimer export the unexported clock/timer interfaces so
+// that an external clock implementation can be injected.
+type VerifClock interface {
+	Now() time.Time
+	AfterFunc(d time.Duration, f func()) VerifTimer
+}
+
+type VerifTimer interface {
+	Stop() bool
+	Reset(d time.Duration) bool
+}
+
+type verifClockAdapter struct{ c VerifClock }
+
+func (a verifClockAdapter) Now() time.Time { return a.c.Now() }
+func (a verifClockAdapter) AfterFunc(d time.Duration, f func()) timer {
+	return a.c.AfterFunc(d, f)
+}
+
+// VerifNewCollectingProcess builds a collecting process without starting any
+// server.  The message channel is buffered (msgBuf) so that a sequential
+// driver can drain it after each VerifDecodePacket call.  clock may be nil
+// (the real clock is used).
+func VerifNewCollectingProcess(input CollectorInput, clock VerifClock, msgBuf int) (*CollectingProcess, error) {
+	var c clock_ = realClock{}
+	if clock != nil {
+		c = verifClockAdapter{clock}
+	}
+	cp, err := initCollectingProcess(input, c)
+	if err != nil {
+		return nil, err
+	}
+	cp.messageChan = make(chan *entities.Message, msgBuf)
+	return cp, nil
+}
+
+type clock_ = clock
+
+// VerifDecodePacket drives decodePacket directly.
+func (cp *CollectingProcess) VerifDecodePacket(b []byte, exportAddress string) (*entities.Message, error) {
+	return cp.decodePacket(bytes.NewBuffer(b), exportAddress)
+}
+
+// VerifHandleTCPClient runs the per-connection TCP handler on conn.
+func (cp *CollectingProcess) VerifHandleTCPClient(conn net.Conn) {
+	cp.handleTCPClient(conn)
+}
+
+// VerifTemplate is a read-only snapshot of one stored template.
+type VerifTemplate struct {
+	ObsDomainID uint32
+	TemplateID  uint16
+	IEs         []*entities.InfoElement
+	ExpiryTime  time.Time
+	HasTimer    bool
+}
+
+// VerifTemplates returns a snapshot of the template store.
+func (cp *CollectingProcess) VerifTemplates() []VerifTemplate {
+	cp.mutex.RLock()
+	defer cp.mutex.RUnlock()
+	var out []VerifTemplate
+	for dom, m := range cp.templatesMap {
+		for id, t := range m {
+			out = append(out, VerifTemplate{dom, id, t.ies, t.expiryTime, t.expiryTimer != nil})
+		}
+	}
+	return out
+}
+
+// VerifNumDomains returns the number of observation domains with templates.
+func (cp *CollectingProcess) VerifNumDomains() int {
+	cp.mutex.RLock()
+	defer cp.mutex.RUnlock()
+	return len(cp.templatesMap)
+}
+
+// VerifServerTLSConfig exposes createServerConfig.
+func (cp *CollectingProcess) VerifServerTLSConfig() (*tls.Config, error) {
+	return cp.createServerConfig()
+}
+
+// VerifStopChan exposes the stop channel (to end handleTCPClient).
+func (cp *CollectingProcess) VerifStopChan() chan struct{} { return cp.stopChan }
+
+// VerifGetMessageLength exposes getMessageLength's contract for a 4-byte prefix.
+func VerifGetFieldLength(b *bytes.Buffer) int { return getFieldLength(b) }
